@@ -719,6 +719,89 @@ pub fn many_normal_groups(rng: &mut Rng, groups: u32) -> Vec<u8> {
     b
 }
 
+/// An INVALID stream (a second colour-indexing transform) built so that a reader which sizes the preceding
+/// predictor / colour-transform sub-image too LARGE never sees the violation: the sub-image's pixels cost one bit each
+/// (two-symbol green code, everything else zero-bit), the violation sits right after the `r` pixels a correct reader
+/// expects, and after the `r2 > r` pixels the mistaken reader expects a perfectly valid rest follows.  `hyp` picks the
+/// mistake: 0 = the width before the pixel packing of a small palette, 1 = block size halved, 2 = floor + 1 instead of
+/// the rounded-up quotient.  `None` when the mistake does not enlarge the sub-image by at least the three bits of the
+/// violation for these parameters.
+pub fn hidden_duplicate_transform(rng: &mut Rng, w: u32, h: u32, ncolors: Option<u32>, t: u32, k: u32, hyp: u32) -> Option<Vec<u8>> {
+    assert!(t == 0 || t == 1);
+    let mut bw = BitWriter::new();
+    bw.bits(0x2f, 8);
+    bw.bits(w - 1, 14);
+    bw.bits(h - 1, 14);
+    bw.bit(false);
+    bw.bits(0, 3);
+    let simple0 = |bw: &mut BitWriter| {
+        bw.bit(true);
+        bw.bit(false);
+        bw.bit(false);
+        bw.bit(false);
+    };
+    let mut wr = w;
+    if let Some(n) = ncolors {
+        bw.bit(true);
+        bw.bits(3, 2);
+        bw.bits(n - 1, 8);
+        bw.bit(false); // palette sub-image: no colour cache, five zero-bit codes: all pixels implicit
+        for _ in 0..5 {
+            simple0(&mut bw);
+        }
+        let pack = if n <= 2 { 8 } else if n <= 4 { 4 } else if n <= 16 { 2 } else { 1 };
+        wr = div_ceil(w, pack);
+    }
+    let bs = 1u32 << (k + 2);
+    let (sw, sh) = (div_ceil(wr, bs), div_ceil(h, bs));
+    let r = sw * sh;
+    let r2 = match hyp {
+        0 => div_ceil(w, bs) * sh,
+        1 => {
+            if k == 0 {
+                return None;
+            }
+            div_ceil(wr, bs / 2) * div_ceil(h, bs / 2)
+        }
+        _ => (wr / bs + 1) * (h / bs + 1),
+    };
+    if r2 < r + 3 || r2 > 200_000 {
+        return None;
+    }
+    bw.bit(true);
+    bw.bits(t, 2);
+    bw.bits(k, 3);
+    bw.bit(false); // no colour cache
+    // green: symbols 0 and 1, one bit each
+    bw.bit(true);
+    bw.bit(true);
+    bw.bit(false);
+    bw.bits(0, 1);
+    bw.bits(1, 8);
+    for _ in 0..4 {
+        simple0(&mut bw);
+    }
+    for _ in 0..r {
+        bw.bit(rng.chance(1, 2));
+    }
+    // the violation, where a correct reader looks for the next transform
+    bw.bit(true);
+    bw.bits(3, 2);
+    for _ in 0..(r2 - r - 3) {
+        bw.bit(rng.chance(1, 2));
+    }
+    // a valid rest for the reader that took all of that for pixels
+    bw.bit(false); // no more transforms
+    bw.bit(false); // no colour cache
+    bw.bit(false); // no meta prefix image
+    for _ in 0..5 {
+        simple0(&mut bw);
+    }
+    let mut b = bw.bytes;
+    b.extend_from_slice(&[0; 4]);
+    Some(b)
+}
+
 /// the stream after the 5-byte header (also the body of a lossless ALPH chunk)
 pub fn write_lossless_stream(bw: &mut BitWriter, rng: &mut Rng, w: u32, h: u32, want: Option<&'static str>, viol: &mut Violations) {
     let mut order: Vec<u32> = vec![0, 1, 2, 3];
